@@ -789,9 +789,9 @@ def omo_job(q):
 
 
 def build_omos(rng, tier):
-    n = 8 if tier == "quick" else 64
-    return [omo_input(rng, rng.randint(3, 4) if tier == "quick" else rng.randint(3, 8), free=(k % 4 == 3),
-                      max_states=10 if tier == "quick" else 13) for k in range(n)]
+    n = 8 if tier == "quick" else 40
+    return [omo_input(rng, rng.randint(3, 4) if tier == "quick" else rng.randint(3, 6), free=(k % 4 == 3),
+                      max_states=10 if tier == "quick" else 12) for k in range(n)]
 
 
 def has_repeat(st):
